@@ -1,5 +1,6 @@
+import json
 import vtlib
-from checks.component import run_component
+from checks.component import run_component, VARIANTS_THOROUGH
 
 
 def run(tier):
@@ -43,3 +44,31 @@ def run(tier):
         "a library assertion (HFSM2_ASSERT via the HFSM2_VERIF hook, assert-enabled variants) during an op is a violation assert/<op>",
     ]
     return chk
+
+
+def replay(path):
+    """python3 vt.py C07 --replay replays/C07-xxxx.json : re-run the recorded op history with all oracles on."""
+    doc = json.load(open(path))
+    rp = doc.get("replay", doc)
+    if "ops" not in rp or "machine" not in rp:
+        print("not a c07_plans op-history replay (crash replays carry only stderr): %s" % path)
+        return 2
+    vname = rp.get("variant", "gcc")
+    kw = dict(VARIANTS_THOROUGH).get(vname, dict(VARIANTS_THOROUGH)["gcc"])
+    src = open(vtlib.os.path.join(vtlib.VERIF, "harness", "c07_plans.cpp")).read()
+    exe = vtlib.build(src_text=src, name="c07_plans", **kw)
+    recs, rc, err = vtlib.run_json([exe, "replay", rp["machine"]] + list(rp["ops"]), timeout=600)
+    hit = False
+    for r in recs:
+        if r.get("type") == "step":
+            print("  %-10s %s   ref=%s" % (r.get("op", ""), r.get("key", ""), r.get("reference", "")))
+        elif r.get("type") == "violation":
+            hit = True
+            print("VIOLATION property=C07 replay=%s" % path)
+            print("  %s: [%s] %s" % (r["fingerprint"], vname, r["message"]))
+    if rc not in (0, 1) or (not recs):
+        print("harness exited rc=%s: %s" % (rc, err[-2000:]))
+        return 1 if rc != 2 else 2
+    if not hit:
+        print("replay of %s [%s]: property held" % (path, vname))
+    return 1 if hit else 0
